@@ -42,12 +42,18 @@ func ParseRaceLogs(prefix string) (reports []RaceReport, foreign int) {
 				if !(strings.Contains(p, "by goroutine") || strings.Contains(p, "by main goroutine")) || strings.Contains(p, "created at") {
 					continue
 				}
+				// the accessor is the first frame that is not Go runtime / sync plumbing; the report
+				// concerns the engine only if an accessor is engine code (memory touched by the engine)
 				top := ""
 				for _, m := range frameRe.FindAllStringSubmatch(p, -1) {
-					if strings.Contains(m[1], "github.com/rulego/streamsql") {
-						top = m[1]
-						break
+					f := m[1]
+					if strings.HasPrefix(f, "runtime.") || strings.HasPrefix(f, "sync/atomic.") || strings.HasPrefix(f, "sync.") || strings.HasPrefix(f, "internal/") {
+						continue
 					}
+					if strings.Contains(f, "github.com/rulego/streamsql") {
+						top = f
+					}
+					break
 				}
 				tops = append(tops, top)
 			}
